@@ -78,11 +78,16 @@ func mutate(r *prng.Rand, data []byte, spans []refcodec.Span, foreign []byte) ([
 			}
 			old := getU32(out, sp.Start)
 			var nv uint32
-			switch r.Intn(4) {
+			switch r.Intn(6) {
 			case 0:
 				nv = old + 1
 			case 1:
 				nv = old - 1
+			case 2, 3:
+				// exactly what is left of the input behind this prefix, and its neighbours:
+				// the values where "fits" and "does not fit" meet
+				rest := uint32(len(out) - sp.Start - 4)
+				nv = rest + uint32(r.Intn(5)) - 2
 			default:
 				nv = bigCounts[r.Intn(len(bigCounts))]
 			}
@@ -496,6 +501,16 @@ func runC09(c *Ctx) *Replay {
 		}
 		for _, dec := range allDecoders {
 			sc := Scenario{Kind: "roundtrip", Prog: p.ID, Mask: sb.Mask, PeerMask: rb.Mask, Type: d.Name, Value: &v, Encoder: e, Decoder: dec, Order: drawOrder(c.R)}
+			if obs := c.N.OldOf[p.ID]; len(obs) > 0 && c.R.Chance(1, 3) {
+				// "every valid encoding" includes those of a peer on the newer version of the
+				// schema, which still sends what this reader has deprecated and adds fields it
+				// does not know: every decoder of every option set reads them alike
+				ob := obs[c.R.Intn(len(obs))]
+				if ob.Types[d.Name] != nil {
+					sc.OldPeer, sc.PeerMask = true, ob.Mask
+					c.Count("old_reader_pairs", 1)
+				}
+			}
 			if e == "marshalto" {
 				sc.Dirty = drawDirty(c.R)
 			}
